@@ -1,11 +1,497 @@
-import CentrifugeVerif.Model.Dissolve
+import CentrifugeVerif.Proofs.DissolveSys
 /-!
-# C40 — Deferred jobs run until they succeed (first obligations; extended below as proofs land)
+# C40 — Deferred jobs run until they succeed
+
+Property theorems over `Model/Dissolve.lean` (ring-buffer lemmas in `Proofs/Dissolve.lean`, system
+invariant in `Proofs/DissolveSys.lean`).
+
+`Reach nW c s`: `s` is reachable from a fresh dissolver with `nW` workers and initial ring capacity
+`c` by any finite label sequence — every interleaving of any number of `Submit` calls, the workers'
+steps (`Wait` part 1, `Remove`, `Closed`, job start, job finish with *either* outcome, re-`Add`),
+`Close` calls, and every choice of the goroutine woken by `cond.Signal`.  All theorems need only
+`0 < c` (the repo uses `initialCapacity = 2`).
+
+Reading of the statement (DESIGN.md §4 C40): "executed after the queue is closed" = *dequeued* after
+`Close`; a job a worker already holds when `Close` returns may still run once.  "Until it succeeds"
+is a liveness claim: proved here are its safety halves (nothing is lost, a failed job is back in the
+queue, no wake-up is lost, FIFO position bound); that an enabled worker step is eventually taken is
+the Go scheduler's fairness, assumed.
 -/
 namespace CentrifugeVerif.Dissolve
 
-/-- after `Close`, `Remove` never returns a job (it looks only at `cnt`, which `Close` zeroes) -/
-theorem remove_after_close (q : Queue) : remove (close q) = some (close q, none) := by
-  simp [remove, close]
+/-! ## the ring buffer -/
+
+/-- the invariant that makes `resize` index-safe: an open queue's ring has `initCap·2^k` slots and is
+more than half full unless it has its initial size -/
+theorem queue_size_invariant {q : Queue} (h : QInv q) :
+    Pow2Mul q.initCap q.nodes.length ∧ (q.nodes.length = q.initCap ∨ q.nodes.length / 2 < q.cnt) :=
+  ⟨h.pow, h.size⟩
+
+inductive QOp where
+  | add (j : Job)
+  | rem
+deriving Repr, DecidableEq
+
+/-- FIFO specification: state = list of queued jobs, output = what `Remove` returned -/
+def specStep (l : List Job) : QOp → List Job × Option Job
+  | .add j => (l ++ [j], none)
+  | .rem => match l with
+    | [] => ([], none)
+    | x :: xs => (xs, some x)
+
+def implStep (q : Queue) : QOp → Option (Queue × Option Job)
+  | .add j => match add q j with
+    | some (q', true) => some (q', none)
+    | _ => none       -- panic, or refused (cannot happen on an open queue)
+  | .rem => remove q
+
+def specRun (l : List Job) : List QOp → List Job × List (Option Job)
+  | [] => (l, [])
+  | op :: ops =>
+    let (l', o) := specStep l op
+    let (l'', os) := specRun l' ops
+    (l'', o :: os)
+
+def implRun (q : Queue) : List QOp → Option (Queue × List (Option Job))
+  | [] => some (q, [])
+  | op :: ops =>
+    match implStep q op with
+    | none => none
+    | some (q', o) =>
+      match implRun q' ops with
+      | none => none
+      | some (q'', os) => some (q'', o :: os)
+
+/-- **FIFO refinement, index safety**: every sequence of `Add`/`Remove` calls on an open queue runs
+without a Go panic (no slice or index out of range, no division by zero — in particular inside
+`resize`), keeps the invariant, and returns exactly what a FIFO list returns. -/
+theorem queue_refines_fifo (ops : List QOp) : ∀ (q : Queue), QInv q →
+    ∃ q' outs, implRun q ops = some (q', outs) ∧ QInv q' ∧ (abs q', outs) = specRun (abs q) ops := by
+  induction ops with
+  | nil => intro q hq; exact ⟨q, [], rfl, hq, rfl⟩
+  | cons op ops ih =>
+    intro q hq
+    cases op with
+    | add j =>
+      obtain ⟨q1, h1, h2, h3, _⟩ := add_open hq j
+      obtain ⟨q2, outs, r1, r2, r3⟩ := ih q1 h2
+      refine ⟨q2, none :: outs, ?_, r2, ?_⟩
+      · simp [implRun, implStep, h1, r1]
+      · simp only [specRun, specStep, ← h3, ← r3]
+    | rem =>
+      cases habs : abs q with
+      | nil =>
+        have h0 : q.cnt = 0 := by have := abs_length hq; rw [habs] at this; simpa using this.symm
+        obtain ⟨q2, outs, r1, r2, r3⟩ := ih q hq
+        refine ⟨q2, none :: outs, ?_, r2, ?_⟩
+        · simp [implRun, implStep, remove_empty q h0, r1]
+        · rw [habs] at r3
+          simp only [specRun, specStep, ← r3]
+      | cons x xs =>
+        obtain ⟨q1, h1, h2, h3, _⟩ := remove_spec q hq x xs habs
+        obtain ⟨q2, outs, r1, r2, r3⟩ := ih q1 h2
+        refine ⟨q2, some x :: outs, ?_, r2, ?_⟩
+        · simp [implRun, implStep, h1, r1]
+        · rw [h3] at r3
+          simp only [specRun, specStep, ← r3]
+
+example : QInv (newQueue 2) := inv_newQueue 2 (by decide)
+
+/-! ## the system -/
+
+/-- index safety under concurrency: no queue operation panics in any reachable state -/
+theorem no_panic {nW c : Nat} (hc : 0 < c) {s : Sys} (h : Reach nW c s) : s.panicked = false :=
+  (reach_inv hc h).noPanic
+
+theorem count_le_one_of_mem {l : List Job} {j : Job} (h : l.count j ≤ 1) (hm : j ∈ l) : l.count j = 1 := by
+  have := List.count_pos_iff.mpr hm; omega
+
+/-- **`no_loss`**: while the queue is open, every job whose `Submit` returned nil and that has not yet
+returned success is in exactly one place: queued once, or owned by exactly one worker (dequeued and
+about to run, running, or failed and about to be re-added). -/
+theorem no_loss {nW c : Nat} (hc : 0 < c) {s : Sys} (h : Reach nW c s) (hopen : s.q.closed = false)
+    (j : Job) (hacc : j ∈ s.accepted) (hns : j ∉ s.succeeded) : (inflight s).count j = 1 := by
+  have hi := reach_inv hc h
+  have h1 : (inflight s).count j = cntJ s j := by simp [inflight, cntJ, List.count_append]
+  rcases hi.noLoss hopen j hacc with h' | h'
+  · exact absurd h' hns
+  · have := hi.uniq j; omega
+
+/-- nothing else is ever in the machine: whatever is queued or owned by a worker was accepted, has not
+succeeded, and is there once. -/
+theorem inflight_sound {nW c : Nat} (hc : 0 < c) {s : Sys} (h : Reach nW c s) (j : Job)
+    (hj : j ∈ inflight s) : j ∈ s.accepted ∧ j ∉ s.succeeded ∧ (inflight s).count j = 1 := by
+  have hi := reach_inv hc h
+  have h1 : (inflight s).count j = cntJ s j := by simp [inflight, cntJ, List.count_append]
+  have hpos : 0 < cntJ s j := by rw [← h1]; exact List.count_pos_iff.mpr hj
+  have := hi.own j hpos
+  have hu := hi.uniq j
+  exact ⟨this.2.1, this.2.2, by omega⟩
+
+/-- **`no_run_after_success`** on the execution log (newest first): no entry of a job has an older
+successful entry of the same job. -/
+theorem no_run_after_success {nW c : Nat} (hc : 0 < c) {s : Sys} (h : Reach nW c s) : RunsOk s.runs :=
+  (reach_inv hc h).runsOk
+
+/-- the same at the step where a worker starts a job: that job has not succeeded before -/
+theorem start_implies_not_succeeded {nW c : Nat} (hc : 0 < c) {s : Sys} (h : Reach nW c s) (w : Nat) (j : Job)
+    (hw : s.ws[w]? = some (W.holding j)) : j ∉ s.succeeded ∧ j ∈ s.accepted := by
+  have hi := reach_inv hc h
+  have hpos : 0 < cntJ s j := by
+    have h1 := heldJobs_set hw W.idle j
+    simp only [wjob, jc] at h1
+    simp only [cntJ]; simp at h1; omega
+  have := hi.own j hpos
+  exact ⟨this.2.2, this.2.1⟩
+
+/-- **`no_dequeue_after_close`**: in no reachable state has a dequeue ever returned a job while the
+queue was closed … -/
+theorem no_dequeue_after_close {nW c : Nat} (hc : 0 < c) {s : Sys} (h : Reach nW c s) :
+    s.deqAfterClose = false :=
+  (reach_inv hc h).noDeqAfterClose
+
+/-- … because once closed, `Remove` returns `(nil,false)` to every worker, and `Submit` is refused. -/
+theorem closed_queue_gives_nothing {nW c : Nat} (hc : 0 < c) {s : Sys} (h : Reach nW c s)
+    (hcl : s.q.closed = true) :
+    abs s.q = [] ∧ remove s.q = some (s.q, none) ∧ ∀ j, add s.q j = some (s.q, false) := by
+  have hi := reach_inv hc h
+  obtain ⟨h0, ha⟩ := hi.qClosed hcl
+  exact ⟨ha, remove_empty _ h0, fun j => add_closed _ j hcl⟩
+
+/-- workers exit only after `Close` -/
+theorem exit_only_after_close {nW c : Nat} (hc : 0 < c) {s : Sys} (h : Reach nW c s)
+    (he : W.exited ∈ s.ws) : s.q.closed = true :=
+  (reach_inv hc h).exitedClosed he
+
+/-- **no lost wake-up**: while the queue is open and a job is queued, some worker is neither parked in
+`cond.Wait()` nor exited (given there is any worker) … -/
+theorem no_lost_wakeup {nW c : Nat} (hc : 0 < c) {s : Sys} (h : Reach nW c s) (hopen : s.q.closed = false)
+    (hq : abs s.q ≠ []) (hws : s.ws ≠ []) : ∃ w ∈ s.ws, w ≠ W.parked ∧ w ≠ W.exited :=
+  (reach_inv hc h).wakeup hopen hq hws
+
+theorem exists_parked (l : List W) (h : ¬ l.all (fun x => x != W.parked) = true) :
+    ∃ p : Nat, l[p]? = some W.parked := by
+  induction l with
+  | nil => simp at h
+  | cons y ys ih =>
+    by_cases hy : y = W.parked
+    · exact ⟨0, by simp [hy]⟩
+    · have : ¬ ys.all (fun x => x != W.parked) = true := by
+        intro ha; apply h; simp [List.all_cons, hy, ha]
+      obtain ⟨p, hp⟩ := ih this
+      exact ⟨p + 1, by simpa using hp⟩
+
+/-- … and such a worker always has an enabled step (so a queued job can always make progress; that the
+step is eventually taken is scheduler fairness). -/
+theorem active_worker_enabled (s : Sys) (i : Nat) (st : W) (hi : s.ws[i]? = some st)
+    (h1 : st ≠ W.parked) (h2 : st ≠ W.exited) :
+    ∃ l, (next s l).isSome = true ∧
+      (l = .wait i ∨ l = .remove i ∨ l = .check i ∨ l = .start i ∨ (∃ ok, l = .finish i ok) ∨ ∃ p, l = .readd i p) := by
+  cases st with
+  | idle =>
+    refine ⟨.wait i, ?_, Or.inl rfl⟩
+    simp only [next, hi, if_true]
+    split
+    · rfl
+    · split <;> rfl
+  | parked => exact absurd rfl h1
+  | removing =>
+    refine ⟨.remove i, ?_, Or.inr (Or.inl rfl)⟩
+    simp only [next, hi, if_true]
+    split <;> rfl
+  | check => exact ⟨.check i, by simp [next, hi], Or.inr (Or.inr (Or.inl rfl))⟩
+  | holding j => exact ⟨.start i, by simp [next, hi], Or.inr (Or.inr (Or.inr (Or.inl rfl)))⟩
+  | running j => exact ⟨.finish i true, by simp [next, hi], Or.inr (Or.inr (Or.inr (Or.inr (Or.inl ⟨true, rfl⟩))))⟩
+  | retrying j =>
+    -- pick a parked worker to signal if there is one
+    have hpick : ∃ p, (wake (s.ws.set i W.idle) p).isSome = true := by
+      by_cases hall : (s.ws.set i W.idle).all (fun x => x != W.parked) = true
+      · refine ⟨0, ?_⟩
+        simp only [wake]
+        split
+        · rfl
+        · simp [hall]
+      · obtain ⟨p, hp⟩ := exists_parked _ hall
+        exact ⟨p, by simp [wake, hp]⟩
+    obtain ⟨p, hp⟩ := hpick
+    refine ⟨.readd i p, ?_, Or.inr (Or.inr (Or.inr (Or.inr (Or.inr ⟨p, rfl⟩))))⟩
+    simp only [next, hi]
+    split
+    · rfl
+    · rfl
+    · cases hwk : wake (s.ws.set i W.idle) p with
+      | none => rw [hwk] at hp; cases hp
+      | some ws' => rfl
+  | exited => exact absurd rfl h2
+
+/-! ## FIFO progress -/
+
+theorem resize_closed {q q' : Queue} {n : Nat} (h : resize q n = some q') :
+    q'.closed = q.closed ∧ q'.initCap = q.initCap := by
+  simp only [resize] at h
+  split at h
+  · cases h
+  · split at h
+    · cases h
+    · cases h; exact ⟨rfl, rfl⟩
+
+theorem add_closed_flag {q q' : Queue} {j : Job} {b : Bool} (h : add q j = some (q', b)) : q'.closed = q.closed := by
+  simp only [add] at h
+  split at h
+  · cases h; rfl
+  · split at h
+    · cases h
+    · rename_i q1 hq1
+      split at h
+      · cases h
+        split at hq1
+        · exact (resize_closed hq1).1
+        · cases hq1; rfl
+      · cases h
+
+theorem remove_closed_flag {q q' : Queue} {o : Option Job} (h : remove q = some (q', o)) : q'.closed = q.closed := by
+  simp only [remove] at h
+  split at h
+  · cases h; rfl
+  · split at h
+    · cases h
+    · cases h
+    · split at h
+      · cases h
+      · split at h
+        · split at h
+          · cases h
+          · rename_i q2 hq2
+            cases h
+            exact (resize_closed hq2).1
+        · cases h; rfl
+
+/-- `closed` is monotone -/
+theorem next_closed_mono {s s' : Sys} {l : Label} (h : next s l = some s') (hc : s.q.closed = true) :
+    s'.q.closed = true := by
+  cases l with
+  | submit pick =>
+    simp only [next] at h
+    split at h
+    · cases h; exact hc
+    · cases h; exact hc
+    · rename_i q' hadd
+      split at h
+      · cases h
+      · cases h; simp only; rw [add_closed_flag hadd]; exact hc
+  | wait w =>
+    simp only [next, hc, if_true] at h
+    split at h
+    · cases h; exact hc
+    · cases h
+  | remove w =>
+    simp only [next] at h
+    split at h
+    · split at h
+      · cases h; exact hc
+      · rename_i q' hrm; cases h; simp only; rw [remove_closed_flag hrm]; exact hc
+      · rename_i q' j hrm; cases h; simp only; rw [remove_closed_flag hrm]; exact hc
+    · cases h
+  | check w =>
+    simp only [next] at h
+    split at h
+    · cases h; exact hc
+    · cases h
+  | start w =>
+    simp only [next] at h
+    split at h
+    · cases h; exact hc
+    · cases h
+  | finish w ok =>
+    simp only [next] at h
+    split at h
+    · split at h <;> (cases h; exact hc)
+    · cases h
+  | readd w pick =>
+    simp only [next] at h
+    split at h
+    · split at h
+      · cases h; exact hc
+      · cases h; exact hc
+      · rename_i q' hadd
+        split at h
+        · cases h
+        · cases h; simp only; rw [add_closed_flag hadd]; exact hc
+    · cases h
+  | close => simp only [next] at h; cases h; simp [close]
+
+theorem run_open {s s' : Sys} (ls : List Label) (h : run s ls = some s') (ho : s'.q.closed = false) :
+    s.q.closed = false := by
+  induction ls generalizing s with
+  | nil => simp [run] at h; subst h; exact ho
+  | cons l ls ih =>
+    simp only [run] at h
+    split at h
+    · cases h
+    · rename_i s1 hs1
+      have h1 := ih h
+      cases hc : s.q.closed with
+      | false => rfl
+      | true => rw [next_closed_mono hs1 hc] at h1; cases h1
+
+/-- what one step does to the queue contents and the dequeue counter, while the queue stays open -/
+theorem fifo_step {s s' : Sys} {l : Label} (hi : SInv s) (h : next s l = some s') (ho : s'.q.closed = false) :
+    (s'.deqs = s.deqs ∧ ∃ added, abs s'.q = abs s.q ++ added) ∨
+    (s'.deqs = s.deqs + 1 ∧ ∃ j, abs s.q = j :: abs s'.q) := by
+  have hso : s.q.closed = false := by
+    cases hc : s.q.closed with
+    | false => rfl
+    | true => rw [next_closed_mono h hc] at ho; cases ho
+  have hq := hi.qOpen hso
+  cases l with
+  | submit pick =>
+    simp only [next] at h
+    obtain ⟨q', ha, _, habs, _⟩ := add_open hq s.nextId
+    rw [ha] at h
+    simp only at h
+    split at h
+    · cases h
+    · cases h; exact Or.inl ⟨rfl, [s.nextId], habs⟩
+  | wait w =>
+    simp only [next] at h
+    split at h
+    · split at h
+      · cases h; exact Or.inl ⟨rfl, [], by simp⟩
+      · split at h <;> (cases h; exact Or.inl ⟨rfl, [], by simp⟩)
+    · cases h
+  | remove w =>
+    simp only [next] at h
+    split at h
+    · cases habs : abs s.q with
+      | nil =>
+        have h0 : s.q.cnt = 0 := by have := abs_length hq; rw [habs] at this; simpa using this.symm
+        rw [remove_empty _ h0] at h
+        simp only at h
+        cases h
+        exact Or.inl ⟨rfl, [], by simp [habs]⟩
+      | cons j rest =>
+        obtain ⟨q', h1, _, h3, _⟩ := remove_spec s.q hq j rest habs
+        rw [h1] at h
+        simp only at h
+        cases h
+        exact Or.inr ⟨rfl, j, by simp [h3]⟩
+    · cases h
+  | check w =>
+    simp only [next] at h
+    split at h
+    · cases h; exact Or.inl ⟨rfl, [], by simp⟩
+    · cases h
+  | start w =>
+    simp only [next] at h
+    split at h
+    · cases h; exact Or.inl ⟨rfl, [], by simp⟩
+    · cases h
+  | finish w ok =>
+    simp only [next] at h
+    split at h
+    · split at h <;> (cases h; exact Or.inl ⟨rfl, [], by simp⟩)
+    · cases h
+  | readd w pick =>
+    simp only [next] at h
+    split at h
+    · rename_i j _
+      obtain ⟨q', ha, _, habs, _⟩ := add_open hq j
+      rw [ha] at h
+      simp only at h
+      split at h
+      · cases h
+      · cases h; exact Or.inl ⟨rfl, [j], habs⟩
+    · cases h
+  | close => simp only [next] at h; cases h; simp [close] at ho
+
+theorem run_deqs_le {s s' : Sys} (ls : List Label) (hi : SInv s) (h : run s ls = some s')
+    (ho : s'.q.closed = false) : s.deqs ≤ s'.deqs := by
+  induction ls generalizing s with
+  | nil => simp [run] at h; subst h; exact Nat.le_refl _
+  | cons l ls ih =>
+    simp only [run] at h
+    split at h
+    · cases h
+    · rename_i s1 hs1
+      have h1 := ih (inv_step hi hs1) h
+      have ho1 := run_open ls h ho
+      rcases fifo_step hi hs1 ho1 with ⟨hd, _⟩ | ⟨hd, _⟩ <;> omega
+
+/-- **`fifo_progress`**: if job `j` is queued behind `pre` (so at position `|pre|`), then along *any*
+run that leaves the queue open, after `k ≤ |pre|` further successful dequeues `j` is at position
+`|pre| - k` (exactly the first `k` jobs of `pre` have been taken, nothing overtakes); otherwise more
+than `|pre|` dequeues have happened, i.e. `j` itself has been dequeued — by the `(|pre|+1)`-th further
+dequeue at the latest.  This is the fairness-free half of "until it succeeds": a job waits for at most
+as many dequeues as there are jobs in front of it. -/
+theorem fifo_progress (ls : List Label) : ∀ {s s' : Sys} (pre post : List Job) (j : Job), SInv s →
+    run s ls = some s' → s'.q.closed = false → abs s.q = pre ++ j :: post →
+    (s'.deqs - s.deqs ≤ pre.length ∧ ∃ post', abs s'.q = pre.drop (s'.deqs - s.deqs) ++ j :: post') ∨
+    pre.length < s'.deqs - s.deqs := by
+  induction ls with
+  | nil =>
+    intro s s' pre post j _ h _ habs
+    simp [run] at h; subst h
+    exact Or.inl ⟨by simp, post, by simp [habs]⟩
+  | cons l ls ih =>
+    intro s s' pre post j hi h ho habs
+    simp only [run] at h
+    split at h
+    · cases h
+    · rename_i s1 hs1
+      have hi1 := inv_step hi hs1
+      have ho1 := run_open ls h ho
+      have hmono := run_deqs_le ls hi1 h ho
+      rcases fifo_step hi hs1 ho1 with ⟨hd, added, ha⟩ | ⟨hd, x, hx⟩
+      · have habs1 : abs s1.q = pre ++ j :: (post ++ added) := by rw [ha, habs]; simp
+        have := ih pre (post ++ added) j hi1 h ho habs1
+        rw [hd] at this; exact this
+      · cases pre with
+        | nil =>
+          right; simp only [List.length_nil]; omega
+        | cons p pre' =>
+          have habs1 : abs s1.q = pre' ++ j :: post := by
+            rw [habs] at hx; simp only [List.cons_append, List.cons.injEq] at hx; exact hx.2.symm
+          rcases ih pre' post j hi1 h ho habs1 with ⟨hle, post', hp⟩ | hgt
+          · left
+            have hk : s'.deqs - s.deqs = (s'.deqs - s1.deqs) + 1 := by omega
+            refine ⟨by simp only [List.length_cons]; omega, post', ?_⟩
+            rw [hk, List.drop_succ_cons]; exact hp
+          · right; simp only [List.length_cons]; omega
+
+/-- reachable form of `fifo_progress` -/
+theorem fifo_progress_reach {nW c : Nat} (hc : 0 < c) {s s' : Sys} (h : Reach nW c s) (ls : List Label)
+    (pre post : List Job) (j : Job) (hr : run s ls = some s') (ho : s'.q.closed = false)
+    (habs : abs s.q = pre ++ j :: post) :
+    (s'.deqs - s.deqs ≤ pre.length ∧ ∃ post', abs s'.q = pre.drop (s'.deqs - s.deqs) ++ j :: post') ∨
+    pre.length < s'.deqs - s.deqs :=
+  fifo_progress ls pre post j (reach_inv hc h) hr ho habs
+
+/-- a failed job goes back to the *end* of the open queue (retry by re-adding) -/
+theorem retry_requeues {nW c : Nat} (hc : 0 < c) {s s' : Sys} (h : Reach nW c s) (w pick : Nat) (j : Job)
+    (hw : s.ws[w]? = some (W.retrying j)) (hopen : s.q.closed = false)
+    (hn : next s (.readd w pick) = some s') : abs s'.q = abs s.q ++ [j] := by
+  have hq := (reach_inv hc h).qOpen hopen
+  obtain ⟨q', ha, _, habs, _⟩ := add_open hq j
+  simp only [next, hw, ha] at hn
+  split at hn
+  · cases hn
+  · cases hn; exact habs
+
+/-- the hypotheses are satisfiable by a non-trivial run: 2 workers, 5 jobs, the ring grows to 4 and
+shrinks again, job 0 fails once and is re-queued behind job 4; `Close` arrives while job 4 runs and job 0
+is still queued: job 4 finishes (it was dequeued before `Close`), job 0 is discarded with the queue
+("Jobs will be lost after closing"), the late `Submit` (job 5) is refused, both workers exit. -/
+def exampleRun : List Label :=
+  [.wait 0, .wait 1, .submit 0, .remove 0, .start 0, .submit 1, .remove 1, .start 1, .submit 0, .submit 0,
+   .submit 0, .finish 0 false, .readd 0 0, .finish 1 true, .wait 1, .remove 1, .start 1, .wait 0, .remove 0,
+   .start 0, .finish 1 true, .finish 0 true, .wait 0, .remove 0, .start 0, .close, .submit 0, .finish 0 true,
+   .wait 0, .check 0, .wait 1, .check 1]
+
+example :
+    ∃ s, run (init 2 2) exampleRun = some s ∧ Reach 2 2 s ∧
+      s.runs = [(4, true), (3, true), (2, true), (1, true), (0, false)] ∧ s.rejected = [5] ∧
+      s.ws = [W.exited, W.exited] ∧ s.deqs = 5 := by
+  refine ⟨_, rfl, ?_, by decide⟩
+  exact reach_run exampleRun Reach.init rfl
 
 end CentrifugeVerif.Dissolve
